@@ -106,15 +106,24 @@ def make_judges(ctx):
         except Unsupported as e:
             ctx.skip('infer:' + str(e))
             return
+        post_codes = None
         if is_c:
-            ctx.skip('infer:complex input')
-            return
+            # a complex input is sized for both components of every element: judged component-wise (real parts first in each pair)
+            vals = [c for pair in vals for c in pair]
+            p0 = ev.post[0] if ev.post else None
+            if p0 is not None:
+                im = p0.imag if p0.imag is not None else [0] * len(p0.codes)
+                post_codes = [k for pair in zip(p0.codes, im) for k in pair]
+                if any(not isinstance(k, int) for k in post_codes):
+                    ctx.skip('infer:complex object whose codes are not integers')
+                    return
         if is_raw:
             vals = [v * R.lsb(d['n_frac']) for v in vals]      # (raw values may carry fraction bits: floats, what the operators hand over)
         if not signed and any(v < 0 for v in vals):
             ctx.skip('infer:negative value for an unsigned format')
             return
         post = ev.post[0] if ev.post else None
+        codes_of = (lambda: post_codes) if post_codes is not None else (lambda: post.codes)
         dyadic = all((v.denominator & (v.denominator - 1)) == 0 for v in vals)
         in_dom = dyadic and all(v.denominator <= 2 ** 20 and abs(v.numerator) < 2 ** 40 for v in vals)
         if ev.exc is not None or post is None:
@@ -138,7 +147,7 @@ def make_judges(ctx):
                 return
             lsb = R.lsb(post.n_frac)
             inexact = False
-            for v, k in zip(vals, post.codes):
+            for v, k in zip(vals, codes_of()):
                 q = k * lsb
                 if abs(q - v) >= lsb:
                     ctx.violation('capped_error', 'Fxp(%s) inferred %s and stored %s: error >= 1 LSB' % (float(v), R.dtype_fxp(*post.fmt()), q), ev)
@@ -154,14 +163,14 @@ def make_judges(ctx):
             return
         # ---- dyadic domain: exact model
         nf_exact = max(R.frac_bits_needed(v) for v in vals)
-        if MAXW != 64 and (given or int_bits(vals, signed) + s > MAXW):
+        if MAXW != 64 and ((given and not (is_raw and given == ('n_frac',))) or int_bits(vals, signed) + s > MAXW):
             ctx.skip('infer:configured maximum with a given size, or an integer part that does not fit the configured maximum')
             return
         if not given and nf_exact + int_bits(vals, signed) + s > MAXW:
             # the exact format is beyond the configured maximum: word <= maximum (checked above), error below one LSB, flagged inexact (the statement
             # does not fix the fraction length of the capped format)
             lsb = R.lsb(post.n_frac)
-            got = [k * lsb for k in post.codes]
+            got = [k * lsb for k in codes_of()]
             inexact = got != vals
             if any(abs(g - v) >= lsb for g, v in zip(got, vals)):
                 ctx.violation('capped_error', 'inferred %s and stored %s for inputs %s: error >= 1 LSB' % (R.dtype_fxp(*post.fmt()), [str(g) for g in got[:4]], [str(v) for v in vals[:4]]), ev)
@@ -203,8 +212,8 @@ def make_judges(ctx):
             lo, hi = R.code_range(signed, e_word)
             representable = all((v / lsb).denominator == 1 and lo <= v / lsb <= hi for v in vals)
             if representable:
-                got = [k * lsb for k in post.codes]
-                if got != vals or tuple(post.shape) != tuple(shape):
+                got = [k * lsb for k in codes_of()]
+                if got != vals or tuple(post.shape) != tuple(shape) or (is_c and not post.is_complex):
                     ctx.violation('value', 'inferred %s but stored %s for inputs %s' % (R.dtype_fxp(*post.fmt()), [str(g) for g in got[:4]], [str(v) for v in vals[:4]]), ev)
                 elif any(post.status.get(f) for f in ('overflow', 'underflow', 'inaccuracy')):
                     ctx.violation('flag', 'exact inference %s raised flags %r' % (R.dtype_fxp(*post.fmt()), post.status), ev)
@@ -215,7 +224,9 @@ def make_judges(ctx):
             sample = {'inputs': [str(v) for v in vals[:4]], 'signed_arg': sg_arg, 'given': {k: d.get(k) for k in given}, 'inferred': R.dtype_fxp(*post.fmt())}
         kinds = set(type(x).__name__ for x in G_flat(val)) if isinstance(val, (list, tuple)) else set()
         mixed = 'int' in kinds and 'float' in kinds
-        ctx.judged((sg_arg, given, rank, bc, False, MAXW, mixed), nontriv, sample, elements=len(vals))
+        ctx.judged((sg_arg, given, rank, bc, False, MAXW, mixed, is_c), nontriv, sample, elements=len(vals))
+        if is_c:
+            ctx.floor_hit(('complex-input', is_raw))
         ctx.floor_hit(('given', given, sg_arg))
         if mixed and e_frac > 0:
             ctx.floor_hit(('mixed_int_float_container', type(val).__name__))
@@ -225,7 +236,8 @@ def make_judges(ctx):
 def floors(tier):
     gs = [(), ('n_word',), ('n_frac',), ('n_frac', 'n_int'), ('n_word', 'n_int')]
     return [('given', g, sa) for g in gs for sa in (None, True, False)] + [('capped', True), ('capped', False), ('capped_configured_maximum', True),
-                                                                         ('mixed_int_float_container', 'list'), ('mixed_int_float_container', 'tuple'), ('object-array-numpy-scalars',), ('raw-with-fraction-length',)]
+                                                                         ('mixed_int_float_container', 'list'), ('mixed_int_float_container', 'tuple'), ('object-array-numpy-scalars',), ('raw-with-fraction-length',),
+                                                                         ('complex-input', False), ('complex-input', True)]
 
 
 # ------------------------------------------------------------------------------------------ workload
@@ -357,6 +369,16 @@ def run_case(case, ctx):
             _try(lambda: Fxp([float(rng.randint(600, 4000)), 3.0], n_frac=4, raw=True, n_word_max=8, **kw))
             _try(lambda: Fxp(rng.randint(600, 4000), n_frac=rng.randint(3, 6), raw=True, n_word_max=rng.choice([8, 10, 12]), **kw))
             ctx.floor_hit(('raw-with-fraction-length',))
+            # complex inputs are sized for both components: values, and raw codes whose fraction length the configured maximum shortens
+            cre, cim = vals[0], dyadic_value(rng, nonneg)
+            _try(lambda: Fxp(complex(float(cre), float(cim)), **kw))
+            _try(lambda: Fxp([complex(float(cre), float(cim)), complex(float(cim), 1.0)], **kw))
+            _try(lambda: Fxp(np.complex64(complex(float(F(rng.randint(1, 2 ** 10), 2 ** rng.randint(0, 8))), float(F(rng.randint(1, 2 ** 10), 2 ** rng.randint(0, 8))))), **kw))
+            nfc = rng.randint(3, 8)
+            ca, cb = rng.randint(40, 120), rng.randint(0 if nonneg else -120, 120)
+            _try(lambda: Fxp(complex(ca * 2 ** nfc, cb * 2 ** nfc), n_frac=nfc, raw=True, n_word_max=8, **kw))
+            _try(lambda: Fxp([complex(ca * 2 ** nfc, cb * 2 ** nfc), complex(2 ** nfc, 0)], n_frac=nfc, raw=True, n_word_max=8, **kw))
+            _try(lambda: Fxp(np.complex64(complex(cb * 2 ** nfc, ca * 2 ** nfc)), n_frac=nfc, raw=True, n_word_max=8, **kw))
         # another configured maximum
         nwm = rng.choice([16, 24, 32, 48])
         _try(lambda: Fxp(val, n_word_max=nwm, **kw))
